@@ -402,8 +402,19 @@ def run(tier, seed, only=None):
                 run_dfs(ctx, report, tname, nodes, MV.get(tname, []), mut)
         run_norecursion(ctx, report)
     engine.run_in_big_stack(go)
+    # drawn trees (same generator as C15), both drivers
+    ngen = 30 if tier == 'quick' else 300
+    items = []
+    for k in range(ngen):
+        sd = seed * 1000 + k
+        nodes = c15.gen_tree(sd)
+        items.append(('gen%d' % sd, nodes, [], False))
+        items.append(('gen%d' % sd, nodes, [], True))
+    items = [i for i in items if not only or i[0] in only]
+    if items:
+        pc.run_parallel(ctx, report, run_dfs, items)
     report.queries = len(report.obligations)
-    report.bounds = {'variants': 'all 51 Instr variants x {Visit, VisitMut}, operands distinct; list operands (br_table) with 2 entries', 'trees': '9 shapes incl. empty and non-empty multi-value sequences and sibling blocks',
+    report.bounds = {'generated trees': '%d drawn trees (obligations/c15.py gen_tree, VERIF_SEED) x {dfs_in_order, dfs_pre_order_mut}' % ngen, 'variants': 'all 51 Instr variants x {Visit, VisitMut}, operands distinct; list operands (br_table) with 2 entries', 'trees': '9 shapes incl. empty and non-empty multi-value sequences and sibling blocks',
                      'visitors': 'default hooks (trait defaults executed) with recording of the id/sequence hooks'}
     report.assumptions = ['a visitor that overrides a per-instruction hook replaces the default body (user code, outside the claim)', 'depth 10^5 is not executed: absence of recursion is a call-graph fact']
     report.samples = [o.as_json() for o in report.obligations[:4]]
